@@ -533,6 +533,9 @@ class Walker:
             elif isinstance(res, tuple) and res[0] == "guard":
                 self.guards.append(res[1])
                 pushed += 1
+            elif isinstance(res, tuple) and res[0] == "guards":
+                self.guards.extend(res[1])
+                pushed += len(res[1])
         for _ in range(pushed):
             self.guards.pop()
         return terminated
@@ -668,24 +671,41 @@ class Walker:
         if cond[0] == "const" and isinstance(cond[1], (bool, int)):
             return self.block(s.body if cond[1] else s.orelse, env) or None
         ea, eb = dict(env), dict(env)
-        self.guards.append((cond, True))
+        pos, neg = self.expand_guard(cond, True), self.expand_guard(cond, False)
+        for g in pos + neg:
+            self.guard_src.setdefault(g[0], (s.lineno, "if " + unparse(s.test), self.fnstack[-1]))
+        self.guards.extend(pos)
         ta = self.block(s.body, ea)
-        self.guards.pop()
-        self.guards.append((cond, False))
+        del self.guards[len(self.guards) - len(pos):]
+        self.guards.extend(neg)
         tb = self.block(s.orelse, eb)
-        self.guards.pop()
+        del self.guards[len(self.guards) - len(neg):]
         if ta and tb:
             return True
         if ta:
             env.clear()
             env.update(eb)
-            return ("guard", (cond, False))
+            return ("guards", neg)
         if tb:
             env.clear()
             env.update(ea)
-            return ("guard", (cond, True))
+            return ("guards", pos)
         self.merge(cond, env, ea, eb)
         return None
+
+    @staticmethod
+    def expand_guard(cond: Term, pol: bool) -> List[Tuple[Term, bool]]:
+        """not (a or b)  ==  (not a) and (not b): a negated disjunction becomes separate guards."""
+        if not pol and cond[0] == "or":
+            out = []
+            for x in cond[1]:
+                n = mk_not(x)
+                if n[0] == "not":
+                    out.append((x, False))
+                else:
+                    out.append((n, True))
+            return out
+        return [(cond, pol)]
 
     def _enter_loop(self, kind: str, s, env: Dict[str, Term]) -> LoopInfo:
         self._lid += 1
@@ -714,6 +734,10 @@ class Walker:
         def bind(t, path):
             if isinstance(t, ast.Name):
                 v = ("iter", dom, li.lid) if not path else ("iterproj", dom, li.lid, tuple(path))
+                if path == [1] and dom[0] == "call" and dom[1] == ("builtin", "enumerate") and len(dom[2]) == 1 \
+                        and not dom[3]:
+                    # `for i, x in enumerate(xs)`: x is xs[i]
+                    v = ("idx", dom[2][0], ("iterproj", dom, li.lid, (0,)))
                 env[t.id] = v
                 li.targets[t.id] = v
             elif isinstance(t, (ast.Tuple, ast.List)):
@@ -1001,8 +1025,34 @@ class Walker:
             return rets[0].value
         if not rets:
             return ("const", None)
+        base = len(self.guards)
+        folded = self._fold_returns([(ev.guards[base:], ev.value) for ev in rets if not ev.loops[len(self.loopstack):]])
+        if folded is not None and len([ev for ev in rets if ev.loops[len(self.loopstack):]]) == 0:
+            return folded
         self._site += 1
         return ("ret", fi.fq, self._site)
+
+    def _fold_returns(self, items) -> Optional[Term]:
+        """`if c: return A` / `return B`  ->  sel(c, A, B) (guards relative to the call site)."""
+        if not items:
+            return None
+        if len(items) == 1:
+            g, v = items[0]
+            return v if not g else None
+        g0, v0 = items[0]
+        if not g0:
+            return None
+        (c, pol) = g0[0]
+        rest_same = [(g[1:], v) for g, v in items if g[:1] == ((c, pol),)]
+        rest_other = [(g[1:], v) for g, v in items if g[:1] == ((c, not pol),)]
+        if len(rest_same) + len(rest_other) != len(items) or not rest_other:
+            return None
+        a = self._fold_returns(rest_same)
+        b = self._fold_returns(rest_other)
+        if a is None or b is None:
+            return None
+        return ("sel", c, a, b) if pol else ("sel", c, b, a)
+
 
 
 # ---------------------------------------------------------------------------
